@@ -123,6 +123,16 @@ EvalClosure(p, a, b) ==
       g2 == BinW(p.op, 3, a, p.pres, TRUE)
   IN IF ~g1.ok \/ ~g2.ok THEN Panic ELSE BinW(p.op2, g1.v, g2.v, p.pres, FALSE)
 
+\* "closure2":  u, v := a + 1, b - 1; g := func(x int) int { return x*u OP v }; return g(b) OP2 g(3)
+\* (a literal capturing TWO variables of the same type, used asymmetrically; the namings of the emitter
+\* reverse the alphabetical order of the two captured names)
+EvalClosure2(p, a, b) ==
+  LET u == a + 1
+      v == b - 1
+      g1 == BinW(p.op, b * u, v, p.pres, TRUE)
+      g2 == BinW(p.op, 3 * u, v, p.pres, TRUE)
+  IN IF ~g1.ok \/ ~g2.ok THEN Panic ELSE BinW(p.op2, g1.v, g2.v, p.pres, FALSE)
+
 \* "loopbranch":  s, t := 0, 1; for i := 0; i < clamp(a); i++ {
 \*                  if i CMP R { s = s OPT i*2; t = t * 2 } else { s = s OPE 1; t = t + i } }; return s + t
 \* (an if/else with exchangeable branches INSIDE a loop, two variables assigned in both branches)
@@ -239,7 +249,7 @@ Eval(p, a, b) ==
     [] p.tpl = "extract" -> EvalExtract(p, a, b)
     [] p.tpl = "ubig" -> EvalUBig(p, a, b) [] p.tpl = "consttype" -> EvalConstType(p, a, b)
     [] p.tpl = "sibloops" -> EvalSibLoops(p, a, b) [] p.tpl = "dectree" -> EvalDecTree(p, a, b)
-    [] p.tpl = "labeled" -> EvalLabeled(p, a, b)
+    [] p.tpl = "labeled" -> EvalLabeled(p, a, b) [] p.tpl = "closure2" -> EvalClosure2(p, a, b)
     [] p.tpl = "orand" -> EvalOrAnd(p, a, b) [] p.tpl = "switch2" -> EvalSwitch2(p, a, b) [] p.tpl = "loop" -> EvalLoop(p, a, b)
     [] p.tpl = "bigconst" -> EvalBigConst(p, a, b)
     [] p.tpl = "loopbranch" -> EvalLoopBranch(p, a, b) [] p.tpl = "rangebranch" -> EvalRangeBranch(p, a, b) [] p.tpl = "strbranch" -> EvalStrBranch(p, a, b)
@@ -261,6 +271,7 @@ Straight == [tpl : {"straight"}, op1 : Ops, op2 : Ops, op3 : Ops, pres : {Plain}
 CallP == [tpl : {"call"}, f : Callees, g : Callees, op : {"+", "-", "*"}, pres : {Plain}]
 RecP == [tpl : {"rec"}, op : {"+", "*", "-"}, c0 : {0, 1}, d : {1, 2}, pres : {Plain}]
 Closure == [tpl : {"closure"}, op : Ops, op2 : {"+", "-", "*"}, pres : {Plain}]
+Closure2 == [tpl : {"closure2"}, op : {"+", "-", "%"}, op2 : {"+", "-", "*"}, pres : {Plain}]
 LoopBranch == [tpl : {"loopbranch"}, cmp : Cmps, rhs : {"b", "k"}, thenOp : {"+", "-"}, elseOp : {"+", "-"}, pres : {Plain}]
 RangeBranch == [tpl : {"rangebranch"}, cmp : Cmps, rhs : {"b", "k"}, thenOp : {"+", "-"}, elseOp : {"+", "-"}, pres : {Plain}]
 StrBranch == [tpl : {"strbranch"}, cmp : Cmps, lit : {2, 3}, elseE : {"b", "7"}, pres : {Plain}]
@@ -297,8 +308,8 @@ Alt(p, h) ==
     [] h = "f" -> IF p.tpl = "loop" THEN {"i", "i*2", "i+b", "i-b", "a"} ELSE Callees
     [] h = "g" -> IF p.tpl = "nested" THEN {"i*10+j", "j*10+i", "i+j", "i*j", "i-j"}
                   ELSE IF p.tpl = "labeled" THEN {"i*10+j", "j*10+i", "i+j"} ELSE Callees
-    [] h \in {"op1", "op2", "op3"} -> IF p.tpl = "closure" /\ h = "op2" THEN {"+", "-", "*"} ELSE Ops
-    [] h = "op" -> IF p.tpl = "closure" THEN Ops ELSE {"+", "*", "-"}
+    [] h \in {"op1", "op2", "op3"} -> IF p.tpl \in {"closure", "closure2"} /\ h = "op2" THEN {"+", "-", "*"} ELSE Ops
+    [] h = "op" -> IF p.tpl = "closure" THEN Ops ELSE IF p.tpl = "closure2" THEN {"+", "-", "%"} ELSE {"+", "*", "-"}
     [] OTHER -> {}
 
 \* the input table (per template, so that no intermediate value leaves TLC's integer range)
